@@ -637,6 +637,10 @@ def gen_types(repo):
             items = fmt_items(fmt.value)
             if len(items) > 1:
                 raise Missing("multi-item standard format")
+            if items and items[0][0] != "1":
+                # `Row.code` is a single struct letter: a repeat count in a standard row ("2H": the decoder would
+                # prefix it with the vdim digits) cannot be represented - say so instead of dropping the count
+                raise Missing(f"standard format {fmt.value!r} of {m.group(1)} has a repeat count")
             code = items[0][1] if items else "none"
             out.append((tyvals[m.group(1)], m.group(1), slen.value, code, has, frac, isf, dtvals[md.group(1)]))
         return out
@@ -667,6 +671,14 @@ def gen_types(repo):
             it = fmt_items(v.value)
             if len(it) > 1:
                 raise Missing("msfmt multi-item")
+            if it and it[0][0] != "1":
+                # a row with a repeat count: `metaTable` holds one struct letter per row, so the count must not be
+                # dropped.  The row `n: "nB"` is literally what the fallback rule `str(mlen) + "B"` produces for n
+                # (checked below to be still in place), i.e. the same function without the row: leave it out.
+                # Any other counted row ("2H" for 4 bytes, "3B" for 2 bytes) is not representable: report it.
+                if it[0] == (str(k.value), CODES["B"]):
+                    continue
+                raise Missing(f"msfmt row {k.value}: {v.value!r} has a repeat count")
             rows.append((k.value, it[0][1] if it else None))
         s = unparse(f)
         if "meta = str(mlen) + 'B'" not in s:
